@@ -76,9 +76,13 @@ class _Sub(ast.NodeTransformer):
         return n
 
 
-def _callee(repo, cls, module, call):
+def _callee(repo, cls, module, call, public=True):
     """(fn, drop_first) of a resolvable helper call, or None"""
     f = call.func
+    if not public:
+        nm = f.attr if isinstance(f, ast.Attribute) else getattr(f, "id", "")
+        if not nm.startswith("_") or nm.startswith("__"):
+            return None
     if isinstance(f, ast.Attribute) and isinstance(f.value, ast.Name):
         owner = None
         if f.value.id == "self" and cls is not None:
@@ -104,7 +108,7 @@ def _callee(repo, cls, module, call):
     return None
 
 
-def inline_expr(repo, cls, module, e, depth=0, log=None):
+def inline_expr(repo, cls, module, e, depth=0, log=None, public=False):
     if depth > MAX_DEPTH:
         return e
 
@@ -113,7 +117,7 @@ def inline_expr(repo, cls, module, e, depth=0, log=None):
 
         def visit_Call(self, n):
             self.generic_visit(n)
-            c = _callee(repo, cls, module, n)
+            c = _callee(repo, cls, module, n, public=public)
             if c is None:
                 return n
             fn, drop = c
@@ -134,7 +138,7 @@ def inline_expr(repo, cls, module, e, depth=0, log=None):
     if not Inl.changed:
         return e
     ast.fix_missing_locations(new)
-    return inline_expr(repo, cls, module, new, depth + 1, log)
+    return inline_expr(repo, cls, module, new, depth + 1, log, public=public)
 
 
 def _tail_inline(repo, cls, module, stmts, log, depth=0):
@@ -194,7 +198,7 @@ def _tail_inline(repo, cls, module, stmts, log, depth=0):
     return out, changed
 
 
-def inlined(repo, cls, fn, module=None, log=None):
+def inlined(repo, cls, fn, module=None, log=None, public=False):
     """copy of FunctionDef *fn* (a method of *cls*, or a function of *module*) with thin-helper calls inlined"""
     if not any(isinstance(n, ast.Call) for n in ast.walk(fn)):
         return fn
@@ -202,7 +206,7 @@ def inlined(repo, cls, fn, module=None, log=None):
     body = []
     changed = False
     for st in fn.body:
-        st2 = inline_expr(repo, cls, module, st, log=log)
+        st2 = inline_expr(repo, cls, module, st, log=log, public=public)
         changed = changed or (st2 is not st)
         body.append(st2)
     body2, ch2 = _tail_inline(repo, cls, module, body, log)
@@ -249,3 +253,317 @@ def closure(repo, cls, fn, module=None, _seen=None):
             if h is not None:
                 out += closure(repo, None, h, module=module, _seen=seen)
     return out
+
+
+# ---------------------------------------------------------------------------------------------------------------
+# full inlining of private helpers (return elimination by continuation)
+# ---------------------------------------------------------------------------------------------------------------
+_uid = [0]
+
+
+class _NoInline(Exception):
+    pass
+
+
+def _has_return(stmts):
+    for s in stmts:
+        for n in ast.walk(s):
+            if isinstance(n, ast.Return):
+                return True
+            if isinstance(n, (ast.FunctionDef, ast.AsyncFunctionDef, ast.Lambda, ast.ClassDef)):
+                break
+    return False
+
+
+def _ends(stmts):
+    """every path through stmts ends in raise/return/continue/break"""
+    from .flow import _terminates
+    return _terminates(stmts)
+
+
+def _elim(stmts, k, on_return):
+    """statement list with `return e` replaced by on_return(e) (a list of statements) and the continuation k appended
+    at every fall-through end; raises _NoInline when a return sits inside a loop / try / with."""
+    if not stmts:
+        return list(k)
+    s, rest = stmts[0], stmts[1:]
+    if isinstance(s, ast.Return):
+        return on_return(s.value, s)
+    if isinstance(s, ast.If) and (_has_return(s.body) or _has_return(s.orelse)):
+        tail = _elim(rest, k, on_return)
+        new = ast.If(test=s.test, body=_elim(s.body, tail, on_return), orelse=_elim(s.orelse, tail, on_return))
+        ast.copy_location(new, s)
+        if not new.body:
+            new.body = [ast.copy_location(ast.Pass(), s)]
+        return [new]
+    if _has_return([s]):
+        raise _NoInline("return inside a loop / try / with")
+    return [s] + _elim(rest, k, on_return)
+
+
+def _rename_locals(fn, body, suffix, keep=()):
+    """clone of body with the helper's parameters and locals renamed (so that they cannot clash with the caller's)"""
+    names = {a.arg for a in fn.args.posonlyargs + fn.args.args + fn.args.kwonlyargs}
+    if fn.args.vararg:
+        names.add(fn.args.vararg.arg)
+    if fn.args.kwarg:
+        names.add(fn.args.kwarg.arg)
+    for b in body:
+        for n in ast.walk(b):
+            if isinstance(n, ast.Name) and isinstance(n.ctx, (ast.Store, ast.Del)):
+                names.add(n.id)
+            if isinstance(n, ast.ExceptHandler) and n.name:
+                names.add(n.name)
+    names -= set(keep)
+    names.discard("self")
+
+    class R(ast.NodeTransformer):
+        def visit_Name(self, n):
+            if n.id in names:
+                return ast.copy_location(ast.Name(id=n.id + suffix, ctx=n.ctx), n)
+            return n
+
+        def visit_ExceptHandler(self, n):
+            self.generic_visit(n)
+            if n.name in names:
+                n.name = n.name + suffix
+            return n
+
+        def visit_FunctionDef(self, n):
+            return n
+
+        def visit_Lambda(self, n):
+            return n
+    return [R().visit(clone(b)) for b in body], names
+
+
+def _inline_call_stmts(repo, cls, module, call, result_target, log):
+    """statements that stand for `result_target = call` (result_target None: call for effect); None when the callee is
+    not a private helper that can be read in place"""
+    c = _callee(repo, cls, module, call)
+    fname = call.func.attr if isinstance(call.func, ast.Attribute) else getattr(call.func, "id", "")
+    if c is None or not fname.startswith("_") or fname.startswith("__"):
+        return None
+    hfn, drop = c
+    if any(isinstance(n, (ast.Yield, ast.YieldFrom, ast.Await)) for n in ast.walk(hfn)):
+        return None
+    binding = _binding(hfn, call, drop)
+    if binding is None:
+        return None
+    body = [b for b in hfn.body if not (isinstance(b, ast.Expr) and isinstance(b.value, ast.Constant))]
+    if not body:
+        return None
+    _uid[0] += 1
+    suffix = f"__{hfn.name.strip('_')}{_uid[0]}"
+    stored = {n.id for b in body for n in ast.walk(b) if isinstance(n, ast.Name) and isinstance(n.ctx, (ast.Store, ast.Del))}
+    # a parameter that the helper never rebinds and that receives a plain name / attribute / constant is read as that
+    # argument; any other argument is bound to a (renamed) local first
+    direct = {p_: arg for p_, arg in binding.items() if p_ not in stored and (
+        isinstance(arg, (ast.Name, ast.Constant)) or (isinstance(arg, ast.Attribute) and isinstance(arg.value, ast.Name)))}
+    body, names = _rename_locals(hfn, body, suffix, keep=tuple(direct))
+    if direct:
+        body = [_Sub(direct).visit(b) for b in body]
+    pre = []
+    for p_, arg in binding.items():
+        if p_ in direct:
+            continue
+        a = ast.Assign(targets=[ast.Name(id=p_ + suffix, ctx=ast.Store())], value=clone(arg))
+        pre.append(ast.copy_location(a, call))
+
+    def on_return(value, node):
+        if result_target is None:
+            if value is None:
+                return []
+            e = ast.Expr(value=value)
+            return [ast.copy_location(e, node)]
+        v = value if value is not None else ast.Constant(value=None)
+        a = ast.Assign(targets=[clone(result_target)], value=v)
+        return [ast.copy_location(a, node)]
+    try:
+        new = _elim(body, [], on_return)
+    except _NoInline:
+        return None
+    if result_target is not None and not _ends(body):
+        # falling off the end returns None
+        pass
+    if log is not None:
+        log.append(hfn.name)
+    out = pre + new
+    for s_ in out:
+        ast.fix_missing_locations(s_)
+    return out
+
+
+def _first_helper_call(repo, cls, module, e):
+    """a private-helper call that is evaluated unconditionally in expression e (not in the right operand of and/or, an
+    arm of a conditional expression, a comprehension or a lambda) and whose own arguments hold no such call; the
+    innermost-leftmost one first.  Hoisting it in front of the statement reorders it with respect to sibling
+    sub-expressions, which does not matter to rules that read the program (nothing is executed)."""
+    def is_helper(c):
+        cal = _callee(repo, cls, module, c)
+        fname = c.func.attr if isinstance(c.func, ast.Attribute) else getattr(c.func, "id", "")
+        return cal is not None and fname.startswith("_") and not fname.startswith("__")
+
+    def walk(n):
+        if isinstance(n, (ast.Lambda, ast.ListComp, ast.SetComp, ast.DictComp, ast.GeneratorExp)):
+            return None
+        if isinstance(n, ast.BoolOp):
+            return walk(n.values[0])
+        if isinstance(n, ast.IfExp):
+            return walk(n.test)
+        for ch in ast.iter_child_nodes(n):
+            if isinstance(ch, (ast.expr, ast.keyword)):
+                r = walk(ch.value if isinstance(ch, ast.keyword) else ch)
+                if r is not None:
+                    return r
+        if isinstance(n, ast.Call) and is_helper(n):
+            return n
+        return None
+    return walk(e)
+
+
+def _replace_node(tree, old, new):
+    class R(ast.NodeTransformer):
+        def visit(self, n):
+            if n is old:
+                return new
+            return super().visit(n)
+    return R().visit(tree)
+
+
+def _inline_block(repo, cls, module, stmts, log, depth):
+    out, changed = [], False
+    for st in stmts:
+        rep = None
+        if depth < MAX_DEPTH:
+            if isinstance(st, ast.Expr) and isinstance(st.value, ast.Call):
+                rep = _inline_call_stmts(repo, cls, module, st.value, None, log)
+            elif isinstance(st, ast.Assign) and len(st.targets) == 1 and isinstance(st.value, ast.Call) \
+                    and isinstance(st.targets[0], (ast.Name, ast.Attribute, ast.Tuple)):
+                rep = _inline_call_stmts(repo, cls, module, st.value, st.targets[0], log)
+            if rep is None and isinstance(st, (ast.If, ast.Assign, ast.Return, ast.Expr, ast.AugAssign)):
+                # a helper call that is the first thing evaluated in the statement's expression: hoisted into a temporary
+                fld = "test" if isinstance(st, ast.If) else "value"
+                e = getattr(st, fld, None)
+                if e is not None:
+                    hc = _first_helper_call(repo, cls, module, e)
+                    if hc is not None and not (isinstance(st, ast.Return) and hc is e):
+                        _uid[0] += 1
+                        tmp = ast.Name(id=f"__h{_uid[0]}", ctx=ast.Store())
+                        pre = _inline_call_stmts(repo, cls, module, hc, tmp, log)
+                        if pre is not None:
+                            st2 = copy.copy(st)
+                            load = ast.copy_location(ast.Name(id=tmp.id, ctx=ast.Load()), hc)
+                            setattr(st2, fld, _swap(e, hc, load))
+                            rep = pre + [st2]
+        if rep is not None:
+            rep2, _ = _inline_block(repo, cls, module, rep, log, depth + 1)
+            out += rep2
+            changed = True
+            continue
+        st2 = st
+        for fld in ("body", "orelse", "finalbody"):
+            sub = getattr(st, fld, None)
+            if isinstance(sub, list) and sub and isinstance(sub[0], ast.stmt):
+                sub2, ch = _inline_block(repo, cls, module, sub, log, depth)
+                if ch:
+                    if st2 is st:
+                        st2 = copy.copy(st)
+                    setattr(st2, fld, sub2)
+                    changed = True
+        if isinstance(st, ast.Try):
+            hs, chh = [], False
+            for h in st.handlers:
+                b2, ch = _inline_block(repo, cls, module, h.body, log, depth)
+                if ch:
+                    h = copy.copy(h)
+                    h.body = b2
+                    chh = True
+                hs.append(h)
+            if chh:
+                if st2 is st:
+                    st2 = copy.copy(st)
+                st2.handlers = hs
+                changed = True
+        out.append(st2)
+    return out, changed
+
+
+def _swap(expr, old, new):
+    """clone of expr with node `old` (by identity) replaced by `new`"""
+    if expr is old:
+        return new
+    if isinstance(expr, list):
+        return [_swap(x, old, new) for x in expr]
+    if not isinstance(expr, ast.AST):
+        return expr
+    out = type(expr)()
+    for f in expr._fields:
+        if hasattr(expr, f):
+            setattr(out, f, _swap(getattr(expr, f), old, new))
+    for a in expr._attributes:
+        if hasattr(expr, a):
+            setattr(out, a, getattr(expr, a))
+    return out
+
+
+def inline_all(repo, cls, fn, module=None, log=None, public=False):
+    """*fn* with every call to a private helper (of its class or module) read in place, whatever the helper's shape:
+    thin helpers as expressions, tail calls as bodies, and calls in statement / assignment / leading-condition
+    position through return elimination (the helper's locals renamed apart).  Helpers with a return inside a loop or
+    try are left as calls."""
+    cur = inlined(repo, cls, fn, module=module, log=log, public=public)
+    body, changed = _inline_block(repo, cls, module, cur.body, log, 0)
+    if not changed:
+        return cur
+    new = copy.copy(cur)
+    new.body = body
+    ast.fix_missing_locations(new)
+    # thin helpers / tail calls that became visible after inlining
+    new2 = inlined(repo, cls, new, module=module, log=log, public=public)
+    set_parents(new2, getattr(fn, "_parent", None))
+    return new2
+
+
+def uncomprehend(fn):
+    """copy of *fn* in which a statement `T = [elt for v in it if c]` (one generator) is written as the loop it
+    abbreviates: `T = []` / `for v in it: if c: T.append(elt)` -- for rules that read per-iteration statements"""
+    changed = False
+
+    def block(stmts):
+        nonlocal changed
+        out = []
+        for st in stmts:
+            if isinstance(st, ast.Assign) and len(st.targets) == 1 and isinstance(st.targets[0], ast.Name) \
+                    and isinstance(st.value, ast.ListComp) and len(st.value.generators) == 1 and not st.value.generators[0].is_async:
+                g = st.value.generators[0]
+                name = st.targets[0].id
+                init = ast.copy_location(ast.Assign(targets=[ast.Name(id=name, ctx=ast.Store())], value=ast.List(elts=[], ctx=ast.Load())), st)
+                app = ast.Expr(value=ast.Call(func=ast.Attribute(value=ast.Name(id=name, ctx=ast.Load()), attr="append", ctx=ast.Load()),
+                                              args=[st.value.elt], keywords=[]))
+                body = [ast.copy_location(app, st)]
+                for c in reversed(g.ifs):
+                    body = [ast.copy_location(ast.If(test=c, body=body, orelse=[]), st)]
+                loop = ast.copy_location(ast.For(target=g.target, iter=g.iter, body=body, orelse=[]), st)
+                out += [init, loop]
+                changed = True
+                continue
+            st2 = st
+            for fld in ("body", "orelse", "finalbody"):
+                sub = getattr(st, fld, None)
+                if isinstance(sub, list) and sub and isinstance(sub[0], ast.stmt):
+                    sub2 = block(sub)
+                    if sub2 is not sub and any(a is not b for a, b in zip(sub2, sub)) or len(sub2) != len(sub):
+                        if st2 is st:
+                            st2 = copy.copy(st)
+                        setattr(st2, fld, sub2)
+            out.append(st2)
+        return out
+    body = block(fn.body)
+    if not changed:
+        return fn
+    new = copy.copy(fn)
+    new.body = body
+    ast.fix_missing_locations(new)
+    set_parents(new, getattr(fn, "_parent", None))
+    return new
